@@ -159,6 +159,17 @@ def run_select(ctx):
             add("jwe.enc_cek", {"jwe": {"protected": {"enc": e}}, "cek": dict(cek, alg=k), "pt": "00", "rand": "22" * 32}, e, k)
             add("jwe.enc_cek", {"jwe": {"unprotected": {"enc": e}}, "cek": dict(cek, alg=k), "pt": "00", "rand": "22" * 32}, e, k)
             add("jwe.dec_cek", {"jwe": r["jwe"], "cek": dict(cek, alg=k)}, e, k)
+    # --- content encryption through the whole-call entry point with a direct key: the key's declared algorithm is the
+    #     content encryption; every ordered pair, in particular pairs of equal key size (A256GCM / A128CBC-HS256) ---
+    for e in names["encr"]:
+        for k in names["encr"] + extra[:2] + near(e)[:3]:
+            for klen in sorted({E.CEKLEN[e], E.CEKLEN.get(k, E.CEKLEN[e])}):
+                dk = {"kty": "oct", "k": b64u(rng.randbytes(klen)), "alg": k}
+                for place in ("protected", "unprotected"):
+                    jwe = {"protected": {"alg": "dir"}}
+                    jwe.setdefault(place, {})["enc"] = e
+                    if klen == E.CEKLEN[e] or k != e:
+                        add("jwe.enc", {"jwe": jwe, "jwk": dk, "pt": "00", "rand": "44" * 64}, e, k)
     # --- key exchange ---
     a, b = pool["EC-P256"], K.public(pool["EC-P256-b"])
     for x in names["exch"] + extra + near("ECDH"):
@@ -185,7 +196,7 @@ def run_select(ctx):
             add(op, build({m: v}), None, None, perm=(need, {m: v}))
 
     def ok_of(op, r):
-        if op in ("jws.sig", "jwe.enc_cek", "jwe.dec_cek", "jwe.enc_jwk", "jwe.dec"):
+        if op in ("jws.sig", "jwe.enc_cek", "jwe.dec_cek", "jwe.enc_jwk", "jwe.dec", "jwe.enc"):
             return bool(r.get("ok"))
         if op == "jws.ver":
             return bool(r.get("r"))
